@@ -238,6 +238,19 @@ Proof.
   unfold bind. destruct (m s h); cbn; intros H HE HQ; auto; try contradiction.
 Qed.
 
+(* variant of sat_bind that also hands the equation of the first step to the
+   continuation (used to combine with fuel-exact facts) *)
+Lemma sat_bind_eq {St A B} (m : M St A) (f : A -> M St B) s h
+      (Q1 : A -> St -> heap -> Prop) (E1 : St -> heap -> Prop)
+      (Q : B -> St -> heap -> Prop) (E : St -> heap -> Prop) :
+  sat (m s h) Q1 E1 ->
+  (forall s' h', m s h = Exn s' h' -> E1 s' h' -> E s' h') ->
+  (forall a s' h', m s h = Ret a s' h' -> Q1 a s' h' -> sat (f a s' h') Q E) ->
+  sat (bind m f s h) Q E.
+Proof.
+  unfold bind. destruct (m s h); cbn; intros H HE HQ; eauto; try contradiction.
+Qed.
+
 Lemma sat_try {St A} (m hd : M St A) s h
       (Q1 : A -> St -> heap -> Prop) (E1 : St -> heap -> Prop)
       (Q : A -> St -> heap -> Prop) (E : St -> heap -> Prop) :
@@ -475,6 +488,45 @@ Proof.
   intros. unfold free. cbn [live lookup next fuel trace].
   rewrite Nat.eqb_refl, layer_eqb_refl, remove_head, remove_notin by assumption.
   reflexivity.
+Qed.
+
+(* ---------- programs that make no allocation request keep the fuel ---------- *)
+
+Definition keeps_fuel {St A} (m : M St A) : Prop :=
+  forall s h, match m s h with
+              | Ret _ _ h' => fuel h' = fuel h
+              | Exn _ h' => fuel h' = fuel h
+              | Bad _ => True
+              end.
+
+Lemma keeps_fuel_ret {St A} (a : A) : keeps_fuel (@ret St A a).
+Proof. intros s h; reflexivity. Qed.
+
+Lemma keeps_fuel_get {St} : keeps_fuel (@get St).
+Proof. intros s h; reflexivity. Qed.
+
+Lemma keeps_fuel_bind {St A B} (m : M St A) (f : A -> M St B) :
+  keeps_fuel m -> (forall a, keeps_fuel (f a)) -> keeps_fuel (bind m f).
+Proof.
+  intros Hm Hf s h. unfold bind. specialize (Hm s h).
+  destruct (m s h) as [a s' h'|s' h'|h']; auto.
+  specialize (Hf a s' h'). destruct (f a s' h'); auto; congruence.
+Qed.
+
+Lemma keeps_fuel_free {St} l b : keeps_fuel (@free St l b).
+Proof.
+  intros s h. unfold free. destruct (lookup b (live h)) as [[l' sz]|]; [|exact I].
+  destruct (layer_eqb l l'); [reflexivity | exact I].
+Qed.
+
+Lemma keeps_fuel_free_opt {St} l ob : keeps_fuel (@free_opt St l ob).
+Proof. destruct ob; [apply keeps_fuel_free | apply keeps_fuel_ret]. Qed.
+
+Lemma keeps_fuel_free_list {St} bs : keeps_fuel (@free_list St bs).
+Proof.
+  induction bs as [|[b [l sz]] bs IH]; cbn [free_list].
+  - apply keeps_fuel_ret.
+  - apply keeps_fuel_bind; [apply keeps_fuel_free | intros _; exact IH].
 Qed.
 
 (* ---------- observation helpers (for extraction) ---------- *)
